@@ -102,6 +102,8 @@ pub struct Prog {
     pub defs: Vec<Def>,
     /// node ids of effects created as `RenderEffect`
     pub render: Vec<usize>,
+    /// node id -> keyword for effects created through another constructor (seff / ieff / weff / wieff)
+    pub other: Vec<(usize, &'static str)>,
     pub tags: Vec<&'static str>,
 }
 
@@ -119,6 +121,7 @@ pub fn gen_prog(r: &mut Rng, mode: Mode) -> Prog {
     };
     let mut written_by_stage: Vec<usize> = vec![];
     let mut render: Vec<usize> = vec![];
+    let mut other: Vec<(usize, &'static str)> = vec![];
     for k in 0..stages {
         let nmemo = match mode {
             Mode::C01 => r.range(1, 7),
@@ -172,6 +175,8 @@ pub fn gen_prog(r: &mut Rng, mode: Mode) -> Prog {
             defs.push(Def::Eff(e));
             if r.chance(1, 4) {
                 render.push(defs.len() - 1);
+            } else if r.chance(1, 3) {
+                other.push((defs.len() - 1, *r.pick(&["seff", "ieff", "weff", "wieff"])));
             }
         }
     }
@@ -218,10 +223,13 @@ pub fn gen_prog(r: &mut Rng, mode: Mode) -> Prog {
     if !render.is_empty() {
         tags.push("render");
     }
+    if !other.is_empty() {
+        tags.push("effkinds");
+    }
     if tags.is_empty() {
         tags.push("plain");
     }
-    Prog { defs, render, tags }
+    Prog { defs, render, other, tags }
 }
 
 pub fn write_prog(f: &mut impl Write, p: &Prog) -> std::io::Result<()> {
@@ -230,6 +238,10 @@ pub fn write_prog(f: &mut impl Write, p: &Prog) -> std::io::Result<()> {
             Def::Sig(v) => writeln!(f, "sig {v}")?,
             Def::Memo(b) => writeln!(f, "memo {}", show_expr(b))?,
             Def::Eff(b) if p.render.contains(&i) => writeln!(f, "reff {}", show_expr(b))?,
+            Def::Eff(b) if p.other.iter().any(|o| o.0 == i) => {
+                let kw = p.other.iter().find(|o| o.0 == i).unwrap().1;
+                writeln!(f, "{kw} {}", show_expr(b))?
+            }
             Def::Eff(b) => writeln!(f, "eff {}", show_expr(b))?,
         }
     }
